@@ -1615,11 +1615,12 @@ example (pre : Str) (z : Bool) :
 /-! # C06, layer 5: ends of lines, assignment signs, expressions and statements.
 
     Besides the lexical round trips (`eol`, `eof`, `assign`) this file specifies the *flat* recipes —
-    statements `outputs := name, action, action …` whose names, actions and outputs are arbitrary
-    strings (sequences of naked, quoted and bracketed atoms) — and proves that `parse` recovers every
-    such recipe verbatim.  Steps `name(arg, …)`, parentheses and amounts are covered by the
-    lemma-level abstractions of `Lemmas/ParserExprs.lean` (`exprAt_step`, `exprAt_paren`,
-    `referenceAt_amount`, `stmtAt_plain`, `stmtAt_target`, `parse_ok`). -/
+    statements `outputs := reference, action, action …` whose reference is an optional amount and a
+    name, and whose names, actions and outputs are arbitrary strings (sequences of naked, quoted
+    and bracketed atoms) — and proves that `parse` recovers every such recipe verbatim.
+    Steps `name(arg, …)` and parentheses are covered by the lemma-level abstractions of
+    `Lemmas/ParserExprs.lean` (`exprAt_step`, `exprAt_paren`, `stmtAt_plain`, `stmtAt_target`,
+    `parse_ok`). -/
 
 /-! ## Ends of lines, the end of the text, assignment signs -/
 
@@ -1634,6 +1635,11 @@ namespace EolLit
 
 def print : EolLit → Str
   | newline bl nl ws => bl ++ nl :: ws
+  | eof bl => bl
+
+/-- the blanks before the newline character / the end of the text -/
+def blanks : EolLit → Str
+  | newline bl _ _ => bl
   | eof bl => bl
 
 def WF : EolLit → Prop
@@ -1745,11 +1751,11 @@ structure Target where
 def Target.print (g : Target) : Str :=
   g.output.print ++ (printCommas g.more ++ (g.b1 ++ (printAssign g.named ++ g.b2)))
 
-/-- a flat statement: an optional target, a name, actions applied to it from left to right, and
-    the end of the line -/
+/-- a flat statement: an optional target, a reference (an optional amount and a name), actions
+    applied to it from left to right, and the end of the line -/
 structure FlatStmt where
   target : Option Target
-  name : StringLit
+  ref : RefLit
   actions : List CommaLit
   eol : EolLit
 
@@ -1760,37 +1766,40 @@ def targetTxt (s : FlatStmt) : Str :=
   | some g => g.print
   | none => []
 
-def print (s : FlatStmt) : Str := s.targetTxt ++ ((s.name.print ++ printCommas s.actions) ++ s.eol.print)
+def print (s : FlatStmt) : Str := s.targetTxt ++ ((s.ref.print ++ printCommas s.actions) ++ s.eol.print)
 
-/-- the statement written at offset `off`: `name, a1, a2` is `a2(a1(name))` -/
+/-- the line from the reference up to the newline character (or the end of the text) -/
+def line (s : FlatStmt) : Str := s.ref.print ++ (printCommas s.actions ++ s.eol.blanks)
+
+/-- the statement written at offset `off`: `ref, a1, a2` is `a2(a1(ref))` -/
 def value (off : Nat) (s : FlatStmt) : AStmt :=
   let o := off + s.targetTxt.length
-  { expr := (commaValues (o + s.name.print.length) s.actions).foldl (fun e action => .step action [e])
-      (.ref (s.name.value o) none)
+  { expr := (commaValues (o + s.ref.print.length) s.actions).foldl (fun e action => .step action [e])
+      (s.ref.value o)
     outputs := s.target.map fun g => g.output.value off :: commaValues (off + g.output.print.length) g.more
     named := (s.target.map (·.named)).getD false }
 
 end FlatStmt
 
-/-- the text does not start like an amount: no remainder word, no digit, no `{ number` -/
-def NotAmountStart (s : Str) : Prop :=
-  remainderLen s = none ∧ (∀ c, s.head? = some c → isDigit c = false)
-  ∧ ∀ s', s = '{' :: s' → ∀ c, (s'.dropWhile isHsp).head? = some c → isDigit c = false
-
-/-- admissible flat statements in front of `rest`: every string is admissible where it stands,
-    blanks are blanks, the name does not start like an amount, and the line ends properly -/
+/-- admissible flat statements in front of `rest`: the reference and every string are admissible
+    where they stand, blanks are blanks, and the line ends properly.  A reference *with an amount*
+    is read in an unrelated way by the rules tried before `reference` (`step` and the output list
+    start with a `string`, which tokenises the amount text differently), so for it the line must
+    moreover contain no `(` and no backslash — and no `=` unless the statement has a target:
+    then no rule can get past the end of the line, and neither a step nor a target is found. -/
 def FlatStmt.Ok (rest : Str) (s : FlatStmt) : Prop :=
-  s.name.Ok false (printCommas s.actions ++ (s.eol.print ++ rest))
-  ∧ NotAmountStart (s.name.print ++ (printCommas s.actions ++ (s.eol.print ++ rest)))
+  s.ref.Ok (printCommas s.actions ++ (s.eol.print ++ rest))
   ∧ CommasOk (s.eol.print ++ rest) s.actions
   ∧ s.eol.WF ∧ s.eol.Follow rest
+  ∧ (s.ref.amount.isSome = true →
+      ∀ c ∈ s.line, c ≠ '(' ∧ c ≠ '\\' ∧ (s.target.isNone = true → c ≠ '='))
   ∧ match s.target with
     | none => True
     | some g =>
       g.output.Ok false (printCommas g.more ++ (g.b1 ++ (printAssign g.named ++ (g.b2 ++
-        ((s.name.print ++ printCommas s.actions) ++ (s.eol.print ++ rest))))))
+        ((s.ref.print ++ printCommas s.actions) ++ (s.eol.print ++ rest))))))
       ∧ CommasOk (g.b1 ++ (printAssign g.named ++ (g.b2 ++
-        ((s.name.print ++ printCommas s.actions) ++ (s.eol.print ++ rest))))) g.more
+        ((s.ref.print ++ printCommas s.actions) ++ (s.eol.print ++ rest))))) g.more
       ∧ IsBlanks g.b1 ∧ IsBlanks g.b2
 
 def printFlat : List FlatStmt → Str
@@ -1826,19 +1835,19 @@ theorem commaItemsOk_map (rest : Str) : ∀ cs : List CommaLit, CommasOk rest cs
 
 /-- an end of line starts, after its blanks, with a newline or is the end of the text -/
 theorem eol_split (e : EolLit) (rest : Str) (h : e.WF) (hf : e.Follow rest) :
-    ∃ bl r, e.print ++ rest = bl ++ r ∧ IsBlanks bl ∧ ∀ c, r.head? = some c → isNewline c = true := by
+    ∃ r, e.print ++ rest = e.blanks ++ r ∧ IsBlanks e.blanks ∧ ∀ c, r.head? = some c → isNewline c = true := by
   cases e with
   | newline bl nl ws =>
-    exact ⟨bl, nl :: ws ++ rest, by simp [EolLit.print], h.1, fun c hc => by
+    exact ⟨nl :: ws ++ rest, by simp [EolLit.print, EolLit.blanks], h.1, fun c hc => by
       simp only [List.cons_append, List.head?_cons, Option.some.injEq] at hc; subst hc; exact h.2.1⟩
   | eof bl =>
     cases hf
-    exact ⟨bl, [], by simp [EolLit.print], h, by simp⟩
+    exact ⟨[], by simp [EolLit.print, EolLit.blanks], h, by simp⟩
 
 theorem noAssign_of_eol (e : EolLit) (rest : Str) (h : e.WF) (hf : e.Follow rest) :
     NoAssign (e.print ++ rest) := by
-  obtain ⟨bl, r, e', hbl, hr⟩ := eol_split e rest h hf
-  refine ⟨bl, r, e', hbl, fun c hc => ?_, fun r' er => ?_⟩
+  obtain ⟨r, e', hbl, hr⟩ := eol_split e rest h hf
+  refine ⟨e.blanks, r, e', hbl, fun c hc => ?_, fun r' er => ?_⟩
   · have hn := hr c hc
     refine ⟨isHsp_of_isNewline hn, ?_, ?_⟩ <;> (rintro rfl; exact absurd hn (by decide))
   · subst er; exact absurd (hr ':' rfl) (by decide)
@@ -1850,8 +1859,8 @@ theorem noParen_after_name (cs : List CommaLit) (e : EolLit) (rest : Str) (hcs :
       ∧ ∀ c, r.head? = some c → isHsp c = false ∧ c ≠ '(' := by
   cases cs with
   | nil =>
-    obtain ⟨bl, r, e', hbl, hr⟩ := eol_split e rest h hf
-    refine ⟨bl, r, by simpa [printCommas] using e', hbl, fun c hc => ?_⟩
+    obtain ⟨r, e', hbl, hr⟩ := eol_split e rest h hf
+    refine ⟨e.blanks, r, by simpa [printCommas] using e', hbl, fun c hc => ?_⟩
     have hn := hr c hc
     exact ⟨isHsp_of_isNewline hn, by rintro rfl; exact absurd hn (by decide)⟩
   | cons c cs =>
@@ -1863,27 +1872,105 @@ theorem noParen_after_name (cs : List CommaLit) (e : EolLit) (rest : Str) (hcs :
 theorem StringLit.print_ne_nil {s : StringLit} {rest : Str} (h : s.Ok false rest) : s.print ≠ [] :=
   (stringAt_of_ok false s rest h).ne_nil
 
+theorem remainderLen_none_of_wordAt {s : Str} (h : remainderWordAt s = false) : remainderLen s = none := by
+  have := remainderWordAt_eq s
+  rw [h] at this
+  cases hl : remainderLen s with
+  | none => rfl
+  | some k => rw [hl] at this; cases this
+
+/-- every admissible reference is a reference, in every text -/
+theorem referenceAt_of_ok (r : RefLit) (rest : Str) (h : r.Ok rest) :
+    ReferenceAt r.print rest (fun i => r.value i) := by
+  obtain ⟨amt, name⟩ := r
+  cases amt with
+  | none =>
+    obtain ⟨hn, hrem, hdig, hbr⟩ := h
+    exact referenceAt_plain (stringAt_of_ok false name rest hn) (remainderLen_none_of_wordAt hrem) hdig hbr
+  | some abl =>
+    obtain ⟨a, bl⟩ := abl
+    obtain ⟨ha, hr, hbl, hn⟩ := h
+    exact referenceAt_amount (amountAt_of_ok a _ ha hr) hbl (stringAt_of_ok false name rest hn)
+
+theorem RefLit.print_ne_nil {r : RefLit} {rest : Str} (h : r.Ok rest) : r.print ≠ [] := by
+  obtain ⟨amt, name⟩ := r
+  cases amt with
+  | none => exact StringLit.print_ne_nil h.1
+  | some abl =>
+    obtain ⟨a, bl⟩ := abl
+    have := StringLit.print_ne_nil h.2.2.2
+    simp only [RefLit.print]
+    intro e
+    exact this (List.append_eq_nil_iff.mp e).2
+
+/-- the text from the reference on: the line, then a newline character or the end of the text -/
+theorem line_split (s : FlatStmt) (rest : Str) (hwf : s.eol.WF) (hf : s.eol.Follow rest) :
+    ∃ tail, s.ref.print ++ (printCommas s.actions ++ (s.eol.print ++ rest)) = s.line ++ tail
+      ∧ ∀ c, tail.head? = some c → isNewline c = true := by
+  obtain ⟨r, e, _, hr⟩ := eol_split s.eol rest hwf hf
+  exact ⟨r, by rw [e]; simp [FlatStmt.line, List.append_assoc], hr⟩
+
+/-- the reference of an admissible flat statement is read by `expr` -/
+theorem exprAt_of_ok (s : FlatStmt) (rest : Str) (h : s.Ok rest) :
+    ExprAt 1 s.ref.print (printCommas s.actions ++ (s.eol.print ++ rest)) (fun i => s.ref.value i) := by
+  obtain ⟨hrefok, hacts, hwf, hfollow, hline, _⟩ := h
+  have href := referenceAt_of_ok s.ref _ hrefok
+  cases ha : s.ref.amount with
+  | none =>
+    have hp : s.ref.print = s.ref.name.print := by simp [RefLit.print, ha]
+    have hn : StringAt false s.ref.print (printCommas s.actions ++ (s.eol.print ++ rest))
+        (fun i => s.ref.name.value i) := by
+      rw [hp]
+      have : s.ref.Ok _ := hrefok
+      simp only [RefLit.Ok, ha] at this
+      exact stringAt_of_ok false _ _ this.1
+    obtain ⟨bl, r, esplit, hbl, hr⟩ := noParen_after_name s.actions s.eol rest hacts hwf hfollow
+    exact exprAt_reference_of_string href hn rfl esplit hbl hr
+  | some abl =>
+    obtain ⟨tail, e, htail⟩ := line_split s rest hwf hfollow
+    exact exprAt_reference_of_line href e
+      (fun c hc => ⟨(hline (by simp [ha]) c hc).1, (hline (by simp [ha]) c hc).2.1⟩) htail
+
+/-- no target is found at the reference of an admissible flat statement without target -/
+theorem noTargetAt_of_ok (s : FlatStmt) (rest : Str) (h : s.Ok rest) (ht : s.target = none) :
+    NoTargetAt (s.ref.print ++ (printCommas s.actions ++ (s.eol.print ++ rest))) := by
+  obtain ⟨hrefok, hacts, hwf, hfollow, hline, _⟩ := h
+  cases ha : s.ref.amount with
+  | none =>
+    have hp : s.ref.print = s.ref.name.print := by simp [RefLit.print, ha]
+    have hn : StringAt false s.ref.print (printCommaItems (s.actions.map CommaLit.toItem) ++ (s.eol.print ++ rest))
+        (fun i => s.ref.name.value i) := by
+      rw [hp, printCommaItems_map]
+      have : s.ref.Ok _ := hrefok
+      simp only [RefLit.Ok, ha] at this
+      exact stringAt_of_ok false _ _ this.1
+    have := noTargetAt_of_outputs hn (commaItemsOk_map _ _ hacts) (noAssign_of_eol s.eol rest hwf hfollow)
+    simpa [printCommaItems_map, List.append_assoc] using this
+  | some abl =>
+    obtain ⟨tail, e, htail⟩ := line_split s rest hwf hfollow
+    rw [e]
+    exact noTargetAt_of_line
+      (fun c hc => ⟨(hline (by simp [ha]) c hc).2.2 (by simp [ht]), (hline (by simp [ha]) c hc).2.1⟩) htail
+
 /-- every admissible flat statement is a statement -/
 theorem stmtAt_of_ok (s : FlatStmt) (rest : Str) (h : s.Ok rest) :
     StmtAt s.print rest (fun i => s.value i) := by
-  obtain ⟨hname, hna, hacts, hwf, hfollow, htarget⟩ := h
-  have hn := stringAt_of_ok false s.name _ hname
+  have hexpr0 := exprAt_of_ok s rest h
+  have hnot := noTargetAt_of_ok s rest h
+  obtain ⟨hrefok, hacts, hwf, hfollow, _, htarget⟩ := h
   have hitems := commaItemsOk_map _ _ hacts
   have hnoassign := noAssign_of_eol s.eol rest hwf hfollow
-  obtain ⟨bl, r, esplit, hbl, hr⟩ := noParen_after_name s.actions s.eol rest hacts hwf hfollow
-  have href := referenceAt_plain hn hna.1 hna.2.1 hna.2.2
-  have hexpr : ExprAt 1 s.name.print (printCommaItems (s.actions.map CommaLit.toItem) ++ (s.eol.print ++ rest))
-      (fun i => .ref (s.name.value i) none) := by
-    rw [printCommaItems_map]
-    exact exprAt_reference_of_string href hn rfl esplit hbl hr
+  have hexpr : ExprAt 1 s.ref.print (printCommaItems (s.actions.map CommaLit.toItem) ++ (s.eol.print ++ rest))
+      (fun i => s.ref.value i) := by
+    rw [printCommaItems_map]; exact hexpr0
   have hltr := ltrAt_of hexpr hitems hnoassign.noComma
   have heol := eolAt_of_wf s.eol rest hwf hfollow
-  have hd : 1 ≤ (s.name.print ++ printCommaItems (s.actions.map CommaLit.toItem)).length + 1 := by omega
+  have hd : 1 ≤ (s.ref.print ++ printCommaItems (s.actions.map CommaLit.toItem)).length + 1 := by omega
   cases ht : s.target with
   | none =>
-    have hno : NoTargetAt ((s.name.print ++ printCommaItems (s.actions.map CommaLit.toItem)) ++ (s.eol.print ++ rest)) := by
-      have := noTargetAt_of_outputs (by rw [printCommaItems_map]; exact hn) hitems hnoassign
-      simpa [List.append_assoc] using this
+    have hno : NoTargetAt ((s.ref.print ++ printCommaItems (s.actions.map CommaLit.toItem)) ++ (s.eol.print ++ rest)) := by
+      have := hnot ht
+      simpa [printCommaItems_map, List.append_assoc] using this
     have := stmtAt_plain hltr heol hd hno
     simpa [FlatStmt.print, FlatStmt.targetTxt, FlatStmt.value, ht, printCommaItems_map, commaItemVals_map] using this
   | some g =>
@@ -1892,7 +1979,7 @@ theorem stmtAt_of_ok (s : FlatStmt) (rest : Str) (h : s.Ok rest) :
     have ho := stringAt_of_ok false g.output _ hout
     have hmoreItems := commaItemsOk_map _ _ hmore
     have := stmtAt_target (otxt := g.output.print) (outs := g.more.map CommaLit.toItem) (b1 := g.b1) (b2 := g.b2)
-      (named := g.named) (ltxt := s.name.print ++ printCommaItems (s.actions.map CommaLit.toItem))
+      (named := g.named) (ltxt := s.ref.print ++ printCommaItems (s.actions.map CommaLit.toItem))
       (eoltxt := s.eol.print) (rest := rest)
       (by simpa [printCommaItems_map, printAssign_eq] using ho)
       (by simpa [printCommaItems_map, printAssign_eq] using hmoreItems) hb1 hb2 hltr heol hd
@@ -1900,11 +1987,11 @@ theorem stmtAt_of_ok (s : FlatStmt) (rest : Str) (h : s.Ok rest) :
       printCommaItems_map, commaItemVals_map, printAssign_eq] using this
 
 theorem FlatStmt.print_ne_nil {s : FlatStmt} {rest : Str} (h : s.Ok rest) : s.print ≠ [] := by
-  have := StringLit.print_ne_nil h.1
+  have hne := RefLit.print_ne_nil h.1
   intro e
   have := congrArg List.length e
   simp only [FlatStmt.print, List.length_append, List.length_nil] at this
-  have : 0 < s.name.print.length := List.length_pos_iff.mpr ‹s.name.print ≠ []›
+  have : 0 < s.ref.print.length := List.length_pos_iff.mpr hne
   omega
 
 def FlatStmt.toItem (s : FlatStmt) : StmtItem := ⟨s.print, fun i => s.value i⟩
@@ -1952,41 +2039,177 @@ theorem nakedLit_ok (txt : Str) (h : IsNaked txt) (rest ws r : Str) (e : rest = 
   rw [this]
   exact ⟨ws, r, e, hws, hr⟩
 
+/-- a naked word directly in front of the character `c` that ends strings -/
+theorem nakedLit_ok' (txt : Str) (h : IsNaked txt) (rest : Str) (c : Char) (tl : Str) (e : rest = c :: tl)
+    (hc : EndsString false c) : (StringLit.mk (.naked txt) []).Ok false rest :=
+  nakedLit_ok txt h rest [] (c :: tl) (by simpa using e) (by simp) (by intro d hd; cases hd; exact hc)
+
+theorem nextNot_of_head (p : Char → Bool) (rest : Str) (c : Char) (tl : Str) (e : rest = c :: tl)
+    (h : p c = false) : NextNot p rest := by
+  subst e; intro d hd; cases hd; exact h
+
+/-- a naked name without amount, where the text `X` from the name on does not start like an amount -/
+theorem plainRef_ok (name : StringLit) (A X : Str) (c : Char) (tl : Str) (e : name.print ++ A = X)
+    (eX : X = c :: tl) (hname : name.Ok false A) (hrem : remainderWordAt X = false)
+    (hdig : isDigit c = false) (hbr : c ≠ '{') : (RefLit.mk none name).Ok A := by
+  subst e
+  refine ⟨hname, hrem, nextNot_of_head _ _ c tl eX hdig, ?_⟩
+  intro s' es'
+  rw [eX] at es'
+  cases es'
+  exact absurd rfl hbr
+
+/-- `digits blanks name`: a bare number as the amount; `X` is the text after the digits and `Y` the
+    text after the blanks -/
+theorem bareNumberRef_ok (ds bl : Str) (name : StringLit) (A X Y : Str)
+    (e : bl ++ name.print ++ A = X) (hY : X.dropWhile isHsp = Y)
+    (hds : IsDigits ds) (hdot : X.head? ≠ some '.')
+    (hc : ∀ c, Y.head? = some c → isDigit c = false ∧ c ≠ '/' ∧ c ≠ '%' ∧ c ≠ '*')
+    (hunit : unitNameAt Y = false) (hof : blanksWordAt "of".toList X = false)
+    (hbl : IsBlanks bl) (hname : name.Ok false A) :
+    (RefLit.mk (some (.implicit (.int ds) none, bl)) name).Ok A := by
+  subst hY; subst e
+  exact ⟨⟨hds, ⟨hdot, fun c h => ⟨(hc c h).1, (hc c h).2.1⟩⟩, hunit⟩,
+    ⟨hof, fun c h => ⟨(hc c h).2.2.1, (hc c h).2.2.2⟩⟩, hbl, hname⟩
+
+/-- `digits unit blanks name` without preposition; `X` is the text after the unit, `U` the text
+    after the digits -/
+theorem unitRef_ok (ds sp : Str) (u : UnitLit) (bl : Str) (name : StringLit) (A X U Y : Str)
+    (e : bl ++ name.print ++ A = X) (eU : sp ++ u.print ++ PrepLit.none.print ++ X = U)
+    (hY : U.dropWhile isHsp = Y) (hds : IsDigits ds) (hdot : U.head? ≠ some '.')
+    (hc : ∀ c, Y.head? = some c → isDigit c = false ∧ c ≠ '/')
+    (hsp : IsBlanks sp) (hu : u.WF) (hof : blanksWordAt "of".toList X = false) (hword : NextNot isReWord X)
+    (hbl : IsBlanks bl) (hname : name.Ok false A) :
+    (RefLit.mk (some (.implicit (.int ds) (some (sp, u, .none)), bl)) name).Ok A := by
+  subst hY; subst eU; subst e
+  exact ⟨⟨hds, ⟨hdot, hc⟩, hsp, hu, trivial, hof, hword⟩, trivial, hbl, hname⟩
+
 def exStmt1 : FlatStmt :=
-  { target := none, name := ⟨.naked ['a'], []⟩, actions := [⟨[], [' '], ⟨.naked ['b'], []⟩⟩],
+  { target := none, ref := ⟨none, ⟨.naked ['a'], []⟩⟩, actions := [⟨[], [' '], ⟨.naked ['b'], []⟩⟩],
     eol := .newline [] '\n' [] }
 
 def exStmt2 : FlatStmt :=
-  { target := some ⟨⟨.naked ['c'], []⟩, [], [' '], false, [' ']⟩, name := ⟨.naked ['a'], []⟩, actions := [],
+  { target := some ⟨⟨.naked ['c'], []⟩, [], [' '], false, [' ']⟩, ref := ⟨none, ⟨.naked ['a'], []⟩⟩, actions := [],
     eol := .newline [] '\n' [] }
 
 example : printFlat [exStmt1, exStmt2] = "a, b\nc = a\n".toList := by decide +kernel
 
+theorem isNaked_a : IsNaked ['a'] := by unfold IsNaked; decide +kernel
+theorem endsString_newline : EndsString false '\n' := Or.inr (Or.inl (by decide))
+theorem endsString_comma : EndsString false ',' := Or.inl (by decide)
+theorem endsString_eq : EndsString false '=' := Or.inl (by decide)
+theorem eolWF_newline : (EolLit.newline [] '\n' []).WF :=
+  ⟨by unfold IsBlanks; decide, by decide, by unfold IsSpaces; decide⟩
+
 theorem exStmt2_ok : exStmt2.Ok [] := by
-  refine ⟨nakedLit_ok _ ⟨by decide, by decide, by decide, by decide⟩ _ [] "\n".toList (by decide) (by simp) ?_, ⟨by decide +kernel, by decide, ?_⟩,
-    trivial, ⟨by unfold IsBlanks; decide, by decide, by unfold IsSpaces; decide⟩, ?_,
-    nakedLit_ok _ ⟨by decide, by decide, by decide, by decide⟩ _ [' '] "= a\n".toList (by decide) (by decide) ?_, trivial,
-    by unfold IsBlanks; decide, by unfold IsBlanks; decide⟩
-  · intro c hc; cases hc; exact Or.inr (Or.inl (by decide))
-  · intro s' e; cases e
+  refine ⟨?_, trivial, eolWF_newline, ?_, (fun h => by cases h), ?_, trivial, by unfold IsBlanks; decide,
+    by unfold IsBlanks; decide⟩
+  · exact plainRef_ok _ _ "a\n".toList 'a' ['\n'] (by decide +kernel) (by decide +kernel)
+      (nakedLit_ok' _ isNaked_a _ '\n' [] (by decide +kernel) endsString_newline)
+      (by decide +kernel) (by decide) (by decide)
   · intro c hc; cases hc
-  · intro c hc; cases hc; exact Or.inl (by decide)
+  · exact nakedLit_ok _ (by unfold IsNaked; decide +kernel) _ [' '] "= a\n".toList (by decide +kernel)
+      (by decide) (by intro c hc; cases hc; exact endsString_eq)
 
 theorem exStmt1_ok : exStmt1.Ok (printFlat [exStmt2]) := by
-  refine ⟨nakedLit_ok _ ⟨by decide, by decide, by decide, by decide⟩ _ [] ", b\nc = a\n".toList (by decide +kernel) (by simp) ?_,
-    ⟨by decide +kernel, by decide, ?_⟩,
-    ⟨by unfold IsBlanks; decide, by unfold IsBlanks; decide,
-      nakedLit_ok _ ⟨by decide, by decide, by decide, by decide⟩ _ [] "\nc = a\n".toList (by decide +kernel) (by simp) ?_, trivial⟩,
-    ⟨by unfold IsBlanks; decide, by decide, by unfold IsSpaces; decide⟩, ?_, trivial⟩
-  · intro c hc; cases hc; exact Or.inl (by decide)
-  · intro s' e; cases e
-  · intro c hc; cases hc; exact Or.inr (Or.inl (by decide))
-  · intro c hc; cases hc; decide
+  refine ⟨?_, ⟨by unfold IsBlanks; decide, by unfold IsBlanks; decide, ?_, trivial⟩, eolWF_newline, ?_,
+    (fun h => by cases h), trivial⟩
+  · exact plainRef_ok _ _ "a, b\nc = a\n".toList 'a' ", b\nc = a\n".toList (by decide +kernel) (by decide +kernel)
+      (nakedLit_ok' _ isNaked_a _ ',' " b\nc = a\n".toList (by decide +kernel) endsString_comma)
+      (by decide +kernel) (by decide) (by decide)
+  · exact nakedLit_ok' _ (by unfold IsNaked; decide +kernel) _ '\n' "c = a\n".toList (by decide +kernel)
+      endsString_newline
+  · exact nextNot_of_head _ _ 'c' " = a\n".toList (by decide +kernel) (by decide)
 
 /-- `a, b` / `c = a`: two statements, the second with an output -/
 example : parse "a, b\nc = a\n".toList
     = .ok [{ expr := .step [.sub 3 ['b']] [.ref [.sub 0 ['a']] none], outputs := none, named := false },
            { expr := .ref [.sub 9 ['a']] none, outputs := some [[.sub 5 ['c']]], named := false }] :=
   flat_parse_roundtrip [] exStmt1 [exStmt2] (by unfold IsSpaces; decide) ⟨exStmt1_ok, exStmt2_ok, trivial⟩
+
+/-! with amounts: `2 eggs, beaten` / `100g flour` / `batter = eggs, flour` -/
+
+def exA1 : FlatStmt :=
+  { target := none, ref := ⟨some (.implicit (.int ['2']) none, [' ']), ⟨.naked "eggs".toList, []⟩⟩,
+    actions := [⟨[], [' '], ⟨.naked "beaten".toList, []⟩⟩], eol := .newline [] '\n' [] }
+
+def exA2 : FlatStmt :=
+  { target := none,
+    ref := ⟨some (.implicit (.int "100".toList) (some ([], ⟨["g"], [[false]], []⟩, .none)), [' ']),
+            ⟨.naked "flour".toList, []⟩⟩,
+    actions := [], eol := .newline [] '\n' [] }
+
+def exA3 : FlatStmt :=
+  { target := some ⟨⟨.naked "batter".toList, []⟩, [], [' '], false, [' ']⟩,
+    ref := ⟨none, ⟨.naked "eggs".toList, []⟩⟩,
+    actions := [⟨[], [' '], ⟨.naked "flour".toList, []⟩⟩], eol := .newline [] '\n' [] }
+
+theorem exA_print : printFlat [exA1, exA2, exA3]
+    = "2 eggs, beaten\n100g flour\nbatter = eggs, flour\n".toList := by decide +kernel
+
+theorem isNaked_eggs : IsNaked "eggs".toList := by unfold IsNaked; decide +kernel
+theorem isNaked_flour : IsNaked "flour".toList := by unfold IsNaked; decide +kernel
+
+theorem exA3_ok : exA3.Ok [] := by
+  refine ⟨?_, ⟨by unfold IsBlanks; decide, by unfold IsBlanks; decide, ?_, trivial⟩, eolWF_newline, ?_,
+    (fun h => by cases h), ?_, trivial, by unfold IsBlanks; decide, by unfold IsBlanks; decide⟩
+  · exact plainRef_ok _ _ "eggs, flour\n".toList 'e' "ggs, flour\n".toList (by decide +kernel) (by decide +kernel)
+      (nakedLit_ok' _ isNaked_eggs _ ',' " flour\n".toList (by decide +kernel) endsString_comma)
+      (by decide +kernel) (by decide) (by decide)
+  · exact nakedLit_ok' _ isNaked_flour _ '\n' [] (by decide +kernel) endsString_newline
+  · intro c hc; cases hc
+  · exact nakedLit_ok _ (by unfold IsNaked; decide +kernel) _ [' '] "= eggs, flour\n".toList (by decide +kernel)
+      (by decide) (by intro c hc; cases hc; exact endsString_eq)
+
+theorem exA2_ok : exA2.Ok (printFlat [exA3]) := by
+  refine ⟨?_, trivial, eolWF_newline, ?_, by decide +kernel, trivial⟩
+  · exact unitRef_ok _ _ _ _ _ _ " flour\nbatter = eggs, flour\n".toList "g flour\nbatter = eggs, flour\n".toList
+      "g flour\nbatter = eggs, flour\n".toList (by decide +kernel) (by decide +kernel) (by decide +kernel)
+      ⟨by decide, by decide⟩ (by decide) (by intro c hc; cases hc; exact ⟨by decide, by decide⟩)
+      (by simp [IsBlanks]) ⟨by decide, by simp [UnitSpellingOk]⟩ (by decide +kernel)
+      (nextNot_of_head _ _ ' ' "flour\nbatter = eggs, flour\n".toList (by decide +kernel) (by decide +kernel))
+      (by unfold IsBlanks; decide)
+      (nakedLit_ok' _ isNaked_flour _ '\n' "batter = eggs, flour\n".toList (by decide +kernel) endsString_newline)
+  · exact nextNot_of_head _ _ 'b' "atter = eggs, flour\n".toList (by decide +kernel) (by decide)
+
+theorem exA1_ok : exA1.Ok (printFlat [exA2, exA3]) := by
+  refine ⟨?_, ⟨by unfold IsBlanks; decide, by unfold IsBlanks; decide, ?_, trivial⟩, eolWF_newline, ?_,
+    by decide +kernel, trivial⟩
+  · exact bareNumberRef_ok _ _ _ _ " eggs, beaten\n100g flour\nbatter = eggs, flour\n".toList
+      "eggs, beaten\n100g flour\nbatter = eggs, flour\n".toList (by decide +kernel) (by decide +kernel)
+      ⟨by decide, by decide⟩ (by decide)
+      (by intro c hc; cases hc; exact ⟨by decide, by decide, by decide, by decide⟩)
+      (by decide +kernel) (by decide +kernel) (by unfold IsBlanks; decide)
+      (nakedLit_ok' _ isNaked_eggs _ ',' " beaten\n100g flour\nbatter = eggs, flour\n".toList (by decide +kernel)
+        endsString_comma)
+  · exact nakedLit_ok' _ (by unfold IsNaked; decide +kernel) _ '\n' "100g flour\nbatter = eggs, flour\n".toList
+      (by decide +kernel) endsString_newline
+  · exact nextNot_of_head _ _ '1' "00g flour\nbatter = eggs, flour\n".toList (by decide +kernel) (by decide)
+
+theorem exA_values : flatValues 0 [exA1, exA2, exA3]
+    = [{ expr := .step [.sub 8 "beaten".toList]
+                   [.ref [.sub 2 "eggs".toList] (some (.qty 0 ⟨((2 : Nat) : Rat), .int⟩ none [] []))],
+         outputs := none, named := false },
+       { expr := .ref [.sub 20 "flour".toList]
+                   (some (.qty 15 ⟨((100 : Nat) : Rat), .int⟩ (some [.sub 18 ['g']]) [] [])),
+         outputs := none, named := false },
+       { expr := .step [.sub 41 "flour".toList] [.ref [.sub 35 "eggs".toList] none],
+         outputs := some [[.sub 26 "batter".toList]], named := false }] := by
+  rfl
+
+/-- a recipe with amounts: the bare number `2`, and `100g` with a unit -/
+example : parse "2 eggs, beaten\n100g flour\nbatter = eggs, flour\n".toList
+    = .ok [{ expr := .step [.sub 8 "beaten".toList]
+                       [.ref [.sub 2 "eggs".toList] (some (.qty 0 ⟨((2 : Nat) : Rat), .int⟩ none [] []))],
+             outputs := none, named := false },
+           { expr := .ref [.sub 20 "flour".toList]
+                       (some (.qty 15 ⟨((100 : Nat) : Rat), .int⟩ (some [.sub 18 ['g']]) [] [])),
+             outputs := none, named := false },
+           { expr := .step [.sub 41 "flour".toList] [.ref [.sub 35 "eggs".toList] none],
+             outputs := some [[.sub 26 "batter".toList]], named := false }] := by
+  have key := flat_parse_roundtrip [] exA1 [exA2, exA3] (by unfold IsSpaces; decide)
+    ⟨exA1_ok, exA2_ok, exA3_ok, trivial⟩
+  rw [List.nil_append, exA_print, List.length_nil, exA_values] at key
+  exact key
 
 end RG.C06
